@@ -7,5 +7,5 @@ ids="$@"; [ -z "$ids" ] && ids=$(ls seeded)
 for vs in ${SEEDS:-1}; do
 for s in $ids; do
   c=$(python3 -c "import json;print(' '.join(json.load(open('seeded/$s/meta.json'))['caught_by']))")
-  echo "$vs $s $c"
+  [ -n "$c" ] && echo "$vs $s $c"
 done; done | xargs -P 4 -L 1 sh -c 'vs=$0; VERIF_SEED=$vs tools/seedcheck.sh "$@" 2>&1 | sed "s/^/seed=$vs /"' | awk '{ if ($0 ~ /VIOLATION property=/) print "ok   " $1, $2, $3; else print "MISS " $0 }'
